@@ -100,6 +100,22 @@ func (vc *VC) initState() *State {
 	vc.declare("alloc0", "Int")
 	vc.assume("(>= alloc0 1)")
 	st.alloc = "alloc0"
+	// register the ghost variables so that every state tracks them from the start
+	var pkg *types.Package
+	if vc.root != nil && vc.root.Pkg != nil {
+		pkg = vc.root.Pkg.Pkg
+	}
+	var gnames []string
+	for k := range vc.eng.cs.Ghosts {
+		gnames = append(gnames, k)
+	}
+	sort.Strings(gnames)
+	for _, k := range gnames {
+		g := vc.eng.cs.Ghosts[k]
+		if hv, _, _ := vc.ghostHV(pkg, g.Name); hv != "" {
+			vc.heapGet(st, hv)
+		}
+	}
 	return st
 }
 
@@ -143,6 +159,11 @@ func (vc *VC) verifyTop(fn *ssa.Function, c *Contract) {
 	vc.oldState = st.clone()
 	res, exit := vc.execFunc(fn, c, args, nil, st, true)
 	if exit == nil {
+		if c.EnsuresPanic {
+			// no path reaches a return: the refusal holds by construction (recorded
+			// as a discharged obligation so that the evidence counts it)
+			vc.oblige(vc.oldState, "post.never_returns", "true", "function refuses: it must not return normally", fn.Pos(), true)
+		}
 		if !c.EnsuresPanic && len(c.Ensures) > 0 {
 			vc.notes = append(vc.notes, "function never returns normally under its precondition")
 		}
@@ -192,6 +213,10 @@ func (vc *VC) verifyTop(fn *ssa.Function, c *Contract) {
 
 // frameObligations: every heap variable written must be covered by modifies.
 func (vc *VC) frameObligations(f0 *frame, exit *State, c *Contract) {
+	if c.TrustFrame {
+		vc.trusted["frame of "+vc.fnName+" (modifies clause assumed, not checked)"] = true
+		return
+	}
 	sc := f0.specCtx(vc.oldState, vc.oldState)
 	sc.bound = map[string]*Term{}
 	f0.bindParams(sc)
